@@ -304,6 +304,8 @@ class Interp:
         fr = Frame(f, f.module, env)
         fr.closure = closure       # enclosing frame of a nested function: its variables are visible
         fr.entry_loop_depth, fr.entry_maybe = self.loop_depth, self.maybe
+        from .consteval import _is_generator
+        fr.yields = [] if _is_generator(f.node) else None
         self.stack.append(fr)
         self.depth += 1
         saved_maybe = self.maybe
@@ -314,9 +316,15 @@ class Interp:
             except _Return as r:
                 ret = r.v
             except _MaybeExit:
-                if not fr.returns:
+                if not fr.returns and fr.yields is None:
                     raise
                 ret = None
+            if fr.yields is not None:
+                # a generator function, evaluated eagerly: its result is the sequence of what it yields
+                e = None
+                for v in fr.yields:
+                    e = join(e, v)
+                return self.new_list(elem=e if e is not None else Sym("noelem"), site=f"generator {f.fq}")
             if fr.returns:
                 for v in fr.returns:
                     ret = join(ret, v)
@@ -710,7 +718,17 @@ class Interp:
             self.events.append(("handler-not-explored", ast.unparse(h.type) if h.type else "bare", pyfacts.where(fr.func, h)))
 
     def st_With(self, st, fr):
-        raise Unsupported(f"with statement at {pyfacts.where(fr.func, st)}")
+        # the managers the code base could meet (locks, warnings.catch_warnings, open files, numpy errstate, suppress)
+        # run the body once; a manager that swallows exceptions (suppress) makes the rest of the block 'maybe'
+        for item in st.items:
+            v = self.eval(item.context_expr, fr)
+            txt = ast.unparse(item.context_expr)
+            if "suppress" in txt:
+                raise Unsupported(f"with-statement over an exception-suppressing manager at {pyfacts.where(fr.func, st)}")
+            if item.optional_vars is not None:
+                entered = v if isinstance(v, Ref) else self.derive("enter", v)
+                self.assign(item.optional_vars, entered, fr, st)
+        self.exec_block(st.body, fr)
 
     def st_ClassDef(self, st, fr):
         fr.env[st.name] = Sym("localclass", st.name)
@@ -823,8 +841,14 @@ class Interp:
                     self.stack.pop()
                 self.mark_shared(v, f"module:{mod.name}.{name}")
                 vo = self.obj(v)
-                if vo is not None and vo.kind == "dict" and not vo.meta.get("stores"):
+                if vo is not None and vo.kind == "dict" and not vo.meta.get("stores") and vo.elem is None:
                     vo.meta["empty_init"] = True      # a module-level dictionary created empty is there to be filled: a cache
+                if vo is not None and vo.kind == "record":
+                    # a module-level instance of a repository class (a hand-written memo): its empty dictionaries likewise
+                    for fv in vo.fields.values():
+                        fo = self.obj(fv)
+                        if fo is not None and fo.kind == "dict" and not fo.meta.get("stores") and fo.elem is None:
+                            fo.meta["empty_init"] = True
                 self.module_vars[key] = v
             return self.module_vars[key]
         raise Unsupported(f"global kind {k}")
@@ -988,6 +1012,18 @@ class Interp:
 
     def ex_Lambda(self, e, fr):
         return LambdaV(e, fr)
+
+    def ex_Yield(self, e, fr):
+        if getattr(fr, "yields", None) is None:
+            raise Unsupported(f"yield outside a generator function at {pyfacts.where(fr.func, e)}")
+        fr.yields.append(self.eval(e.value, fr) if e.value is not None else Const(None))
+        return Const(None)
+
+    def ex_YieldFrom(self, e, fr):
+        if getattr(fr, "yields", None) is None:
+            raise Unsupported(f"yield from outside a generator function at {pyfacts.where(fr.func, e)}")
+        fr.yields.append(self.iter_elem(self.eval(e.value, fr), fr, e))
+        return Const(None)
 
     def call_lambda(self, lam, args, kwargs):
         a = lam.node.args
@@ -1338,7 +1374,7 @@ STR_LIKE_METHODS = {"split", "replace", "strip", "lstrip", "rstrip", "startswith
                     "count", "index", "find", "encode", "decode", "zfill", "rjust", "ljust", "splitlines", "isdigit"}
 OPAQUE_METHODS = {"joinpath", "read_text", "read_bytes", "is_file", "exists", "open", "astype", "reshape", "any", "all", "sum", "copy", "tolist", "items", "keys", "values", "get", "evolve", "to_labels",
                   "to_matrix", "fill", "transpose", "get_counts", "bit_count", "commutes_with_all", "update", "append", "reverse",
-                  "T", "dot", "flatten", "nonzero", "astype", "id", "name", "to_list", "expand", "validate", "is_qubit_entangled",
+                  "dot", "flatten", "nonzero", "astype", "id", "name", "to_list", "expand", "validate", "is_qubit_entangled",
                   "compress", "get_edges", "has_edge", "add_edge", "pop", "extend", "insert", "sort", "setdefault", "clear", "remove"}
 
 
